@@ -300,4 +300,332 @@ theorem mapE_length {α β ε : Type} (f : α → Except ε β) (l : List α) (b
         subst h
         simp [ih bs' hbs]
 
+/-! ## paths: `step_by(2)` helpers, canonical paths, what `to_rpc` writes -/
+
+theorem evens_length {α : Type} (l : List α) : (evens l).length = (l.length + 1) / 2 := by
+  induction l using evens.induct with
+  | case1 => simp [evens]
+  | case2 a => simp [evens]
+  | case3 a b rest ih => simp only [evens, List.length_cons, ih]; omega
+
+theorem evens_getElem? {α : Type} (l : List α) (k : Nat) : (evens l)[k]? = l[2 * k]? := by
+  induction l using evens.induct generalizing k with
+  | case1 => simp [evens]
+  | case2 a => cases k <;> simp [evens]
+  | case3 a b rest ih =>
+    cases k with
+    | zero => simp [evens]
+    | succ k =>
+      simp only [evens, List.getElem?_cons_succ, ih]
+      have : 2 * (k + 1) = (2 * k + 1) + 1 := by omega
+      rw [this, List.getElem?_cons_succ, List.getElem?_cons_succ]
+
+theorem odds_length {α : Type} (l : List α) : (odds l).length = l.length / 2 := by
+  unfold odds
+  rw [evens_length]
+  cases l <;> simp <;> omega
+
+theorem odds_getElem? {α : Type} (l : List α) (k : Nat) : (odds l)[k]? = l[2 * k + 1]? := by
+  unfold odds
+  rw [evens_getElem?]
+  cases l <;> simp
+
+theorem mapE_map' {α β γ ε : Type} (f : α → Except ε β) (g : γ → α) (h : γ → β) (l : List γ)
+    (hh : ∀ c ∈ l, f (g c) = .ok (h c)) : mapE f (l.map g) = .ok (l.map h) := by
+  induction l with
+  | nil => rfl
+  | cons c cs ih =>
+    simp only [List.map_cons, mapE, hh c (List.mem_cons_self ..)]
+    rw [ih fun x hx => hh x (List.mem_cons_of_mem _ hx)]
+
+/-! ## canonical paths (the values `to_rpc → try_from_rpc` reproduces exactly) -/
+
+/-- per-interface conditions (`n` interfaces, this one at index `i`) -/
+structure IfCanon (n i : Nat) (m : IfMeta) : Prop where
+  id : m.id < 2 ^ PATH_IFID_BITS
+  geo : geoFromRpc (geoToRpc m.geo) = m.geo
+  lat : if i < n - 1 then durToStd (latToRpc m.latency) = m.latency else m.latency = none
+  bw : if i < n - 1 then (if m.bandwidth.getD 0 > 0 then some (m.bandwidth.getD 0) else none) = m.bandwidth
+       else m.bandwidth = none
+
+/-- inter-AS links (even indices): all announced with a link type that survives `to_i32`/`from_i32`, or none -/
+def EvenCanon (ifm : List IfMeta) : Prop :=
+  (∀ k (h : 2 * k < ifm.length), ∃ t, ifm[2 * k].link = some (.egress t) ∧ linkFromI32 (linkToI32 t) = t) ∨
+  (∀ k (h : 2 * k < ifm.length), ifm[2 * k].link = none)
+
+/-- intra-AS links (odd indices except the last interface): all announced, or none; nothing on the last -/
+def OddCanon (ifm : List IfMeta) : Prop :=
+  (∀ k (h : 2 * k + 1 < ifm.length), 2 * k + 1 = ifm.length - 1 → ifm[2 * k + 1].link = none) ∧
+  ((∀ k (h : 2 * k + 1 < ifm.length), 2 * k + 1 < ifm.length - 1 → ∃ c, ifm[2 * k + 1].link = some (.ingress c)) ∨
+   (∀ k (h : 2 * k + 1 < ifm.length), ifm[2 * k + 1].link = none))
+
+structure MetaCanon (m : PathMeta) (ifm : List IfMeta) : Prop where
+  ifs : m.interfaces = some ifm
+  nz : ifm.length ≠ 0
+  even : ifm.length % 2 = 0
+  exp : (m.expiration : Int) ≤ i64Max
+  mtu : m.mtu < 2 ^ PATH_MTU_BITS
+  notes : m.notes = none ∨ ∃ ns, m.notes = some ns ∧ ns.length = ifm.length / 2 + 1
+  each : ∀ i (h : i < ifm.length), IfCanon ifm.length i ifm[i]
+  evenL : EvenCanon ifm
+  oddL : OddCanon ifm
+
+/-- the vectors `to_rpc` writes for an interface list -/
+structure Written (r : RPath) (ifm : List IfMeta) : Prop where
+  geo : r.geo = ifm.map fun x => geoToRpc x.geo
+  lat : r.latency = (ifm.take (ifm.length - 1)).map fun x => latToRpc x.latency
+  bw : r.bandwidth = (ifm.take (ifm.length - 1)).map fun x => x.bandwidth.getD 0
+  lt : r.linkType = if (evens ifm).any isEgress then (evens ifm).map egressI32 else []
+  ih : r.internalHops =
+    if ((odds ifm).take (ifm.length / 2 - 1)).any isIngress then ((odds ifm).take (ifm.length / 2 - 1)).map ingressHops else []
+
+theorem written_geo (r : RPath) (ifm : List IfMeta) (w : Written r ifm) (i : Nat) (hi : i < ifm.length)
+    (hc : IfCanon ifm.length i ifm[i]) :
+    (if r.geo.length = ifm.length then (r.geo[i]?).bind geoFromRpc else none) = ifm[i].geo := by
+  have hl : r.geo.length = ifm.length := by rw [w.geo, List.length_map]
+  rw [if_pos hl, w.geo, List.getElem?_map, List.getElem?_eq_getElem hi]
+  simpa using hc.geo
+
+theorem written_lat (r : RPath) (ifm : List IfMeta) (w : Written r ifm) (i : Nat) (hi : i < ifm.length)
+    (hc : IfCanon ifm.length i ifm[i]) :
+    (if r.latency.length = ifm.length - 1 then (r.latency[i]?).bind durToStd else none) = ifm[i].latency := by
+  have hl : r.latency.length = ifm.length - 1 := by
+    rw [w.lat, List.length_map, List.length_take]; omega
+  rw [if_pos hl, w.lat, List.getElem?_map, List.getElem?_take]
+  have := hc.lat
+  by_cases h : i < ifm.length - 1
+  · simp only [h, if_true] at this ⊢
+    rw [List.getElem?_eq_getElem hi]
+    simpa using this
+  · simp only [h, if_false] at this ⊢
+    simp [this]
+
+theorem written_bw (r : RPath) (ifm : List IfMeta) (w : Written r ifm) (i : Nat) (hi : i < ifm.length)
+    (hc : IfCanon ifm.length i ifm[i]) :
+    (if r.bandwidth.length = ifm.length - 1 then
+       (r.bandwidth[i]?).bind (fun b => if b > 0 then some b else none) else none) = ifm[i].bandwidth := by
+  have hl : r.bandwidth.length = ifm.length - 1 := by
+    rw [w.bw, List.length_map, List.length_take]; omega
+  rw [if_pos hl, w.bw, List.getElem?_map, List.getElem?_take]
+  have := hc.bw
+  by_cases h : i < ifm.length - 1
+  · simp only [h, if_true] at this ⊢
+    rw [List.getElem?_eq_getElem hi]
+    simpa using this
+  · simp only [h, if_false] at this ⊢
+    simp [this]
+
+
+theorem mem_evens {α : Type} (l : List α) (x : α) (hx : x ∈ evens l) : ∃ k, ∃ h : 2 * k < l.length, l[2 * k] = x := by
+  obtain ⟨k, hk, rfl⟩ := List.getElem_of_mem hx
+  have h1 : (evens l)[k]? = some (evens l)[k] := List.getElem?_eq_getElem hk
+  rw [evens_getElem?] at h1
+  obtain ⟨h2, h3⟩ := List.getElem?_eq_some_iff.mp h1
+  exact ⟨k, h2, h3⟩
+
+theorem written_link_even (r : RPath) (ifm : List IfMeta) (w : Written r ifm) (_hnz : ifm.length ≠ 0)
+    (hev : ifm.length % 2 = 0) (hc : EvenCanon ifm) (i : Nat) (hi : i < ifm.length) (hi2 : i % 2 = 0) :
+    (if r.linkType.length = ifm.length / 2 then
+       (r.linkType[i / 2]?).map (fun x => LinkMeta.egress (linkFromI32 x)) else none) = ifm[i].link := by
+  have hi' : 2 * (i / 2) = i := by omega
+  have hevl : (evens ifm).length = ifm.length / 2 := by rw [evens_length]; omega
+  rcases hc with hA | hB
+  · -- all inter-AS links announced
+    have h0 : 2 * 0 < ifm.length := by omega
+    obtain ⟨t0, ht0, _⟩ := hA 0 h0
+    have hany : (evens ifm).any isEgress = true := by
+      rw [List.any_eq_true]
+      refine ⟨ifm[2 * 0], ?_, by simp [isEgress, ht0]⟩
+      apply List.mem_of_getElem? (i := 0)
+      rw [evens_getElem?]; exact List.getElem?_eq_getElem h0
+    rw [w.lt, if_pos hany, List.length_map, hevl, if_pos rfl, List.getElem?_map, evens_getElem?, hi',
+      List.getElem?_eq_getElem hi]
+    have hik : 2 * (i / 2) < ifm.length := by omega
+    obtain ⟨t, ht, hcan⟩ := hA (i / 2) hik
+    have hidx : ifm[2 * (i / 2)] = ifm[i] := by congr 1
+    rw [hidx] at ht
+    simp [egressI32, ht, hcan]
+  · have hany : (evens ifm).any isEgress = false := by
+      rw [List.any_eq_false]
+      intro x hx
+      obtain ⟨k, hk, rfl⟩ := mem_evens ifm x hx
+      simp [isEgress, hB k hk]
+    have hik : 2 * (i / 2) < ifm.length := by omega
+    have hn := hB (i / 2) hik
+    have hidx : ifm[2 * (i / 2)] = ifm[i] := by congr 1
+    rw [hidx] at hn
+    rw [w.lt, hany, hn]
+    have : ¬ (0 = ifm.length / 2) := by omega
+    simp [this]
+
+theorem written_link_odd (r : RPath) (ifm : List IfMeta) (w : Written r ifm)
+    (hev : ifm.length % 2 = 0) (hc : OddCanon ifm) (i : Nat) (hi : i < ifm.length) (hi2 : ¬ i % 2 = 0) :
+    (if r.internalHops.length = ifm.length / 2 - 1 then
+       (r.internalHops[i / 2]?).map LinkMeta.ingress else none) = ifm[i].link := by
+  have hi' : 2 * (i / 2) + 1 = i := by omega
+  have hik : 2 * (i / 2) + 1 < ifm.length := by omega
+  have hidx : ifm[2 * (i / 2) + 1] = ifm[i] := by congr 1
+  obtain ⟨hlast, hrest⟩ := hc
+  have hodl : ((odds ifm).take (ifm.length / 2 - 1)).length = ifm.length / 2 - 1 := by
+    rw [List.length_take, odds_length]; omega
+  by_cases hl : i = ifm.length - 1
+  · -- the last interface never carries an intra-AS link
+    have hn := hlast (i / 2) hik (by omega)
+    rw [hidx] at hn
+    rw [hn]
+    have hout : r.internalHops[i / 2]? = none := by
+      rw [w.ih]
+      split
+      · rw [List.getElem?_map, List.getElem?_take]
+        have : ¬ i / 2 < ifm.length / 2 - 1 := by omega
+        simp [this]
+      · simp
+    simp [hout]
+  · have hlt : i < ifm.length - 1 := by omega
+    have hk : i / 2 < ifm.length / 2 - 1 := by omega
+    rcases hrest with hA | hB
+    · have h1 : 2 * 0 + 1 < ifm.length := by omega
+      obtain ⟨c1, hc1⟩ := hA 0 h1 (by omega)
+      have hany : ((odds ifm).take (ifm.length / 2 - 1)).any isIngress = true := by
+        rw [List.any_eq_true]
+        refine ⟨ifm[2 * 0 + 1], ?_, by simp [isIngress, hc1]⟩
+        apply List.mem_of_getElem? (i := 0)
+        rw [List.getElem?_take, if_pos (by omega), odds_getElem?]
+        exact List.getElem?_eq_getElem h1
+      obtain ⟨c, hcc⟩ := hA (i / 2) hik (by omega)
+      rw [hidx] at hcc
+      rw [w.ih, if_pos hany, List.length_map, hodl, if_pos rfl, List.getElem?_map, List.getElem?_take, if_pos hk,
+        odds_getElem?, hi', List.getElem?_eq_getElem hi]
+      simp [ingressHops, hcc]
+    · have hany : ((odds ifm).take (ifm.length / 2 - 1)).any isIngress = false := by
+        rw [List.any_eq_false]
+        intro x hx
+        have hx' := List.mem_of_mem_take hx
+        obtain ⟨k, hk', rfl⟩ := List.getElem_of_mem hx'
+        have h1 : (odds ifm)[k]? = some (odds ifm)[k] := List.getElem?_eq_getElem hk'
+        rw [odds_getElem?] at h1
+        obtain ⟨h2, h3⟩ := List.getElem?_eq_some_iff.mp h1
+        rw [← h3]
+        simp [isIngress, hB k h2]
+      have hn := hB (i / 2) hik
+      rw [hidx] at hn
+      rw [w.ih, hany, hn]
+      simp
+
+theorem metaAt_written (r : RPath) (ifm : List IfMeta) (m : PathMeta) (w : Written r ifm) (hc : MetaCanon m ifm)
+    (i : Nat) (hi : i < ifm.length) : metaAt r ifm.length i (ifm[i].isdAs, ifm[i].id) = ifm[i] := by
+  have hg := written_geo r ifm w i hi (hc.each i hi)
+  have hl := written_lat r ifm w i hi (hc.each i hi)
+  have hb := written_bw r ifm w i hi (hc.each i hi)
+  have hk : (if i % 2 = 0 then
+        (if r.linkType.length = ifm.length / 2 then (r.linkType[i / 2]?).map (fun x => LinkMeta.egress (linkFromI32 x)) else none)
+      else
+        (if r.internalHops.length = ifm.length / 2 - 1 then (r.internalHops[i / 2]?).map LinkMeta.ingress else none)) = ifm[i].link := by
+    split
+    · rename_i h2; exact written_link_even r ifm w hc.nz hc.even hc.evenL i hi h2
+    · rename_i h2; exact written_link_odd r ifm w hc.even hc.oddL i hi h2
+  unfold metaAt
+  rw [hg, hl, hb, hk]
+
+
+theorem pathToRpc_written {A : Type} (env : PathEnv A) (p : Path A) (m : PathMeta) (ifm : List IfMeta)
+    (hm : p.pmeta = some m) (hi : m.interfaces = some ifm) : Written (pathToRpc env p) ifm := by
+  unfold pathToRpc
+  simp only [hm, hi]
+  constructor <;> rfl
+
+theorem ifaces_written {A : Type} (env : PathEnv A) (p : Path A) (m : PathMeta) (ifm : List IfMeta)
+    (hm : p.pmeta = some m) (hi : m.interfaces = some ifm) :
+    (pathToRpc env p).interfaces = ifm.map (fun x => ({ isdAs := x.isdAs, id := x.id } : RIface)) ∧
+    (pathToRpc env p).mtu = m.mtu ∧
+    (pathToRpc env p).expiration = some (if (m.expiration : Int) ≤ i64Max then (m.expiration : Int) else i64Max, 0) ∧
+    (pathToRpc env p).epic = m.epic ∧
+    (pathToRpc env p).notes = (match m.notes with
+          | some ns => if ns.length = ifm.length / 2 + 1 then ns else []
+          | none => []) ∧
+    (pathToRpc env p).ifaceAddr = p.nextHop.map env.showAddr ∧
+    (pathToRpc env p).raw = (match p.dp with | .empty => [] | .standard raw => raw) := by
+  unfold pathToRpc
+  simp only [hm, hi]
+  simp
+  exact ⟨rfl, rfl⟩
+
+theorem metaFromRpc_written {A : Type} (env : PathEnv A) (p : Path A) (m : PathMeta) (ifm : List IfMeta)
+    (hm : p.pmeta = some m) (hc : MetaCanon m ifm) : metaFromRpc (pathToRpc env p) = .ok m := by
+  obtain ⟨hifs, hmtu, hexp, hepic, hnotes, _, _⟩ := ifaces_written env p m ifm hm hc.ifs
+  have w := pathToRpc_written env p m ifm hm hc.ifs
+  have hlen : (pathToRpc env p).interfaces.length = ifm.length := by rw [hifs, List.length_map]
+  have hmap : mapE ifaceFromRpc (pathToRpc env p).interfaces = .ok (ifm.map fun x => (x.isdAs, x.id)) := by
+    rw [hifs]
+    apply mapE_map'
+    intro x hx
+    obtain ⟨i, hi, rfl⟩ := List.getElem_of_mem hx
+    have := (hc.each i hi).id
+    simp [ifaceFromRpc, tryU, this]
+  unfold metaFromRpc
+  rw [hlen]
+  have h1 : ¬ (ifm.length = 0 ∨ ifm.length % 2 ≠ 0) := by
+    have := hc.nz; have := hc.even; omega
+  rw [if_neg h1, hmap]
+  simp only
+  have h2 : ¬ ifm.length / 2 < 1 := by have := hc.nz; have := hc.even; omega
+  rw [if_neg h2, hexp]
+  simp only
+  rw [hmtu]
+  have h3 : tryU m.mtu PATH_MTU_BITS .mtu = .ok m.mtu := by simp [tryU, hc.mtu]
+  rw [h3]
+  simp only [if_pos hc.exp]
+  have hexp' : ((m.expiration : Int) % ((2 ^ PATH_EXPIRATION_BITS : Nat) : Int)).toNat = m.expiration := by
+    have hlt : (m.expiration : Int) < ((2 ^ PATH_EXPIRATION_BITS : Nat) : Int) := by
+      have h := hc.exp
+      have : i64Max < ((2 ^ PATH_EXPIRATION_BITS : Nat) : Int) := by decide
+      omega
+    rw [Int.emod_eq_of_lt (Int.natCast_nonneg _) hlt, Int.toNat_natCast]
+  have hifm : ((ifm.map fun x => (x.isdAs, x.id)).mapIdx fun i iface => metaAt (pathToRpc env p) ifm.length i iface) = ifm := by
+    apply List.ext_getElem
+    · simp
+    · intro i h1 h2
+      rw [List.getElem_mapIdx, List.getElem_map]
+      exact metaAt_written _ ifm m w hc i h2
+  have hn : (if (pathToRpc env p).notes.length = ifm.length / 2 + 1 then some (pathToRpc env p).notes else none) = m.notes := by
+    rw [hnotes]
+    rcases hc.notes with h | ⟨ns, h, hl⟩
+    · rw [h]; simp
+    · rw [h]; simp [hl]
+  rw [hexp', hifm, hn, hepic, ← hc.ifs]
+
+
+/-- the paths `to_rpc → try_from_rpc` reproduces exactly -/
+inductive PathCanon {A : Type} (env : PathEnv A) : Path A → Prop
+  /-- the AS-local (empty) path of a non-wildcard AS -/
+  | loc (ia : Nat) (h : isWildcard ia = false) :
+      PathCanon env { src := ia, dst := ia, dp := .empty, pmeta := none, nextHop := none }
+  /-- a standard path with canonical metadata -/
+  | standard (src dst : Nat) (raw : Bytes) (m : PathMeta) (ifm : List IfMeta) (nh : Option A)
+      (hraw : raw ≠ []) (hparse : env.parseRaw raw = .exact)
+      (hnh : ∀ a, nh = some a → env.parseAddr (env.showAddr a) = some a)
+      (hm : MetaCanon m ifm) :
+      PathCanon env { src := src, dst := dst, dp := .standard raw, pmeta := some m, nextHop := nh }
+
+theorem path_roundtrip_of_canon {A : Type} (env : PathEnv A) (p : Path A) (hc : PathCanon env p) :
+    pathFromRpc env (pathToRpc env p) p.src p.dst = .ok p := by
+  cases hc with
+  | loc ia h => simp [pathFromRpc, pathToRpc, localPath, h]
+  | standard src dst raw m ifm nh hraw hparse hnh hm =>
+    have hmeta := metaFromRpc_written env { src := src, dst := dst, dp := .standard raw, pmeta := some m, nextHop := nh } m ifm rfl hm
+    obtain ⟨_, _, _, _, _, haddr, hraweq⟩ := ifaces_written env
+      { src := src, dst := dst, dp := .standard raw, pmeta := some m, nextHop := nh } m ifm rfl hm.ifs
+    simp only at haddr hraweq
+    have hnhop : nextHopFromRpc env (pathToRpc env { src := src, dst := dst, dp := .standard raw, pmeta := some m, nextHop := nh }) = .ok nh := by
+      unfold nextHopFromRpc
+      rw [haddr]
+      cases nh with
+      | none => rfl
+      | some a => simp [hnh a rfl]
+    unfold pathFromRpc
+    rw [hraweq]
+    have he : raw.isEmpty = false := by cases raw <;> simp_all
+    simp only [he, hparse, hnhop, hmeta]
+    simp
+
 end ScionVerif.Rpc
